@@ -25,7 +25,13 @@ claim("C11","muxsim","exploration",
 claim("C15","muxsim","exploration",
  "Concurrent bind requests with seeded answer orders/kinds matched to the responder's view through unique hosts; second family forces flow-id re-use between binds and streams.",
  NOTE_E1, T_DST, "DESIGN.md §6 C15")
-for p in ["C01","C08","C10","C12","C13","C14","C16","C18","C19"]:
+claim("C08","muxsim","fault_enumeration",
+ "One end cause (forged Close, cut of either/both directions in every mode, invalid frame, local handle drop) at a seeded scheduling round of a close/abort workload with pending calls of every kind; plus a crash-point sweep that fixes plan and schedule and moves the trigger over every scheduling round of that execution. Judged: every pending call at an endpoint whose connection ended has resolved at quiescence, the task returned; after a local drop every frame queued before it is on the wire before Close.",
+ NOTE_E1 + " A peer endpoint whose application never accepts streams (and so wedges its own receive loop) is outside the premise: both applications keep accepting.", T_DST + "; crash-point sweep over scheduling rounds", "DESIGN.md §6 C08")
+claim("C10","muxsim","fault_enumeration",
+ "All single frames and all ordered pairs over 12 frame kinds x 8 flow-id classes (every slot state) are enumerated against a real endpoint under seeded schedules, random longer sequences beyond, optional invalid message at the end; Reset discipline per flow id against a reference model of what PROTOCOL.md fixes, bystander stream models, liveness probe.",
+ "Only reactions PROTOCOL.md or the statement fix are judged; others taint the flow id and are recorded. " + NOTE_E1, T_DST + "; bounded-exhaustive frame-pair enumeration", "DESIGN.md §6 C10")
+for p in ["C01","C12","C13","C14","C16","C18","C19"]:
     na(p, "check not built yet in this session (planned, see DESIGN.md §6); not claimed until its command exists")
 na("C09","pure codec function of one complete buffer (quantifier: inputs only): no schedule, clock, fault or interleaving for a simulator to decide; see DESIGN.md §6 C09")
 na("C17","outcome is a function of the TLS configuration cell alone; handshake randomness has no seam, so one seed cannot be one repeatable execution; see DESIGN.md §6 C17")
